@@ -62,6 +62,7 @@ def write(run, nviol, assumptions, known):
 COMPONENTS_NOTE = {
     "cola (all of cola/ from /repo working tree), plum, optree, numpy, scipy": "real",
     "process-wide NumPy generator": "real object, observed; user's stream mirrored on a reference RandomState",
+    "CPython small-object allocator (which address a new operator gets)": "real pymalloc, steered through an owned pool (sim/addr.py)",
     "NumPy data allocator": "real malloc behind fault-injecting PyDataMem handler (simalloc.c)",
     "clock (cola.utils.torch_tqdm.time)": "stub SimClock",
     "progress bar (tqdm)": "stub FakeBar",
